@@ -3,11 +3,11 @@ package vuego
 import (
 	"context"
 	"errors"
-	"sync/atomic"
 	"io"
 	"io/fs"
 	"sort"
 	"strings"
+	"sync/atomic"
 	"time"
 
 	"golang.org/x/net/html"
@@ -152,6 +152,10 @@ type zzFile struct {
 func (z *zzFile) Stat() (fs.FileInfo, error) { return z.info, nil }
 func (z *zzFile) Close() error               { return nil }
 func (z *zzFile) Read(p []byte) (int, error) {
+	if z.info.dir {
+		// as os.DirFS and fstest.MapFS do
+		return 0, &fs.PathError{Op: "read", Path: z.info.name, Err: errors.New("is a directory")}
+	}
 	if z.off >= len(z.data) {
 		return 0, io.EOF
 	}
@@ -211,9 +215,13 @@ func (w *zzWriter) Write(p []byte) (int, error) {
 	return room, errors.New("zz: writer full")
 }
 
-
 // small DOM builders
-func zzElem(tag string) *html.Node          { return &html.Node{Type: html.ElementNode, Data: tag} }
-func zzText(s string) *html.Node            { return &html.Node{Type: html.TextNode, Data: s} }
-func zzAttr(k, v string) html.Attribute     { return html.Attribute{Key: k, Val: v} }
-func zzNodes(n ...*html.Node) []*html.Node  { return n }
+func zzElem(tag string) *html.Node         { return &html.Node{Type: html.ElementNode, Data: tag} }
+func zzText(s string) *html.Node           { return &html.Node{Type: html.TextNode, Data: s} }
+func zzAttr(k, v string) html.Attribute    { return html.Attribute{Key: k, Val: v} }
+func zzNodes(n ...*html.Node) []*html.Node { return n }
+
+// zzFlat removes white space: what the serialiser adds between tags is insignificant.
+func zzFlat(s string) string {
+	return strings.Join(strings.Fields(s), "")
+}
